@@ -26,6 +26,8 @@ func main() {
 		cmdList(os.Args[2:])
 	case "replay":
 		os.Exit(cmdReplay(os.Args[2:]))
+	case "reach":
+		cmdReach(os.Args[2:])
 	default:
 		fmt.Fprintln(os.Stderr, "unknown command", os.Args[1])
 		os.Exit(2)
@@ -148,3 +150,67 @@ func cmdList(args []string) {
 }
 
 var _ *ssa.Function
+
+// cmdReach lists the functions of the given dependency packages (by package name) that repository code reaches
+// through static calls, transitively within those packages.
+func cmdReach(args []string) {
+	fs := flag.NewFlagSet("reach", flag.ExitOnError)
+	repo := fs.String("repo", "/repo", "repository root")
+	pk := fs.String("pkgs", "ie", "comma-separated dependency package names")
+	fs.Parse(args)
+	w, err := loadWorld(*repo, nil)
+	if err != nil {
+		fmt.Fprintln(os.Stderr, err)
+		os.Exit(2)
+	}
+	want := map[string]bool{}
+	for _, p := range strings.Split(*pk, ",") {
+		want[p] = true
+	}
+	seen := map[*ssa.Function]bool{}
+	var work []*ssa.Function
+	callees := func(fn *ssa.Function) []*ssa.Function {
+		var out []*ssa.Function
+		for _, b := range fn.Blocks {
+			for _, ins := range b.Instrs {
+				if ci, ok := ins.(ssa.CallInstruction); ok {
+					if c := ci.Common().StaticCallee(); c != nil {
+						out = append(out, c)
+					}
+				}
+			}
+		}
+		return out
+	}
+	for _, fn := range w.fnByKey {
+		if fn.Pkg == nil || !strings.HasPrefix(fn.Pkg.Pkg.Path(), "github.com/free5gc/go-upf/") {
+			continue
+		}
+		for _, c := range callees(fn) {
+			if c.Pkg != nil && want[c.Pkg.Pkg.Name()] && !seen[c] {
+				seen[c] = true
+				work = append(work, c)
+			}
+		}
+	}
+	for len(work) > 0 {
+		fn := work[len(work)-1]
+		work = work[:len(work)-1]
+		for _, c := range callees(fn) {
+			if c.Pkg != nil && want[c.Pkg.Pkg.Name()] && !seen[c] {
+				seen[c] = true
+				work = append(work, c)
+			}
+		}
+	}
+	var ks []string
+	for fn := range seen {
+		if len(fn.Blocks) > 0 {
+			ks = append(ks, fnKey(fn))
+		}
+	}
+	sort.Strings(ks)
+	for _, k := range ks {
+		fmt.Println(k)
+	}
+}
